@@ -656,6 +656,7 @@ type Gen struct {
 	w            *World
 	f            *ssa.Function
 	ctr          *Contract
+	phantom      map[string]bool // frame entries of callees naming heaps this function never touches
 	all          map[string]*Contract
 	vals         map[ssa.Value]Term
 	addrs        map[ssa.Value]Addr
@@ -750,6 +751,25 @@ func (g *Gen) freshBase(base string) {
 	}
 	for _, s := range g.sliceTerms {
 		g.w.assume(fmt.Sprintf("(not (= %s (sbase %s)))", base, s))
+	}
+	// ... and w.r.t. every slice stored in the heap right now: in a field of some object or under some key of some map
+	// (a new backing array is none of the arrays reachable before the allocation)
+	if g.curState != nil {
+		keys := make([]string, 0, len(g.curState.heap))
+		for k := range g.curState.heap {
+			keys = append(keys, k)
+		}
+		sort.Strings(keys)
+		for _, k := range keys {
+			h := g.curState.heap[k]
+			switch {
+			case h.Sort == "(Array Int Slice)":
+				g.w.assume(fmt.Sprintf("(forall ((o Int)) (! (not (= (sbase (select %s o)) %s)) :pattern ((select %s o))))", h.S, base, h.S))
+			case strings.HasPrefix(k, "MV:") && strings.HasSuffix(h.Sort, " Slice))") && strings.HasPrefix(h.Sort, "(Array Int (Array "):
+				ks := strings.TrimSuffix(strings.TrimPrefix(h.Sort, "(Array Int (Array "), " Slice))")
+				g.w.assume(fmt.Sprintf("(forall ((m Int) (k %s)) (! (not (= (sbase (select (select %s m) k)) %s)) :pattern ((select (select %s m) k))))", ks, h.S, base, h.S))
+			}
+		}
 	}
 }
 
@@ -2248,6 +2268,16 @@ func (g *Gen) checkFrameEntries(who string, entries []string, st *State) {
 			// the callee writes through pointers of that type; this function holds no such pointer: nothing of ours can change
 			continue
 		}
+		if !found && os.Getenv("GOVC_FRAME") != "" && g.ctr != nil {
+			// the callee writes a heap this function never touches (no value of that type occurs in it). Nothing this
+			// function reads can change, but ITS callers may read that heap: the write is recorded and has to appear in this
+			// function's own frame (checkFrame, obligation frame/unobserved:<entry>). A misspelt entry fails there too.
+			if g.phantom == nil {
+				g.phantom = map[string]bool{}
+			}
+			g.phantom[m] = true
+			continue
+		}
 		if !found {
 			g.note("spec error in %s: frame entry %q matches no heap", who, m)
 		}
@@ -3076,6 +3106,23 @@ func (g *Gen) checkFrame(ret *ssa.Return, st *State) {
 	pos := ret.Pos()
 	if !pos.IsValid() {
 		pos = g.curPos
+	}
+	// writes of callees to heaps this function never touches: they must be in this function's frame as well
+	var ph []string
+	for m := range g.phantom {
+		ph = append(ph, m)
+	}
+	sort.Strings(ph)
+	for _, m := range ph {
+		covered := false
+		for _, own := range g.ctr.Modifies {
+			if own == m || (!strings.Contains(own, ":") && strings.HasPrefix(m, own+".")) {
+				covered = true
+			}
+		}
+		if !covered {
+			g.addObNoAssume("frame", "frame/unobserved:"+m, pos, st, "false")
+		}
 	}
 	alloc0, ok := g.entry.heap["alloc"]
 	if !ok {
